@@ -122,8 +122,8 @@ pub(super) fn load_styles<R: Read + std::io::Seek>(
     let mut fonts = Vec::new();
     let font_nodes = style_sheet
         .children()
-        .filter(|n| n.has_tag_name("fonts"))
-        .collect::<Vec<Node>>()[0];
+        .find(|n| n.has_tag_name("fonts"))
+        .ok_or_else(|| XlsxError::Xml("Missing fonts in xl/styles.xml".to_string()))?;
     for font in font_nodes.children() {
         let mut sz = 11;
         let mut name = "Inter".to_string();
